@@ -40,7 +40,7 @@ def run(seed, checks):
         subprocess.run(["git", "-C", "/repo", "checkout", "--", "."])
     return res
 if __name__ == "__main__":
-    seeds = sys.argv[1:] or sorted(d for d in os.listdir(ROOT) if os.path.isdir(os.path.join(ROOT, d)))
+    seeds = sys.argv[1:] or sorted(d for d in os.listdir(ROOT) if os.path.isfile(os.path.join(ROOT, d, "patch.diff")))
     mp = os.path.join(ROOT, "matrix.json")
     matrix = json.load(open(mp)) if os.path.exists(mp) else {}
     for s in seeds:
